@@ -87,6 +87,35 @@ def sites():
                         res.append((rel, i, kind + ":" + pat, ln, new))
             if DELETABLE.match(code) and "let " not in code and "return" not in code:
                 res.append((rel, i, "delete-stmt", ln, ""))
+            # second family: slips that keep the tokens and move them
+            for m in re.finditer(r"!(?=[a-z_(])", code):
+                if code[:m.start()].count('"') % 2 == 0 and not code[:m.start()].rstrip().endswith(("if", "while")) and "!=" not in code[m.start():m.start() + 2] \
+                        and not re.search(r"[a-z_]$", code[:m.start()]):
+                    res.append((rel, i, "neg-any", ln, code[:m.start()] + code[m.end():] + ln[len(code):]))
+            for m in re.finditer(r"\.\.(?![.=])", code):
+                if code[:m.start()].count('"') % 2 == 0:
+                    res.append((rel, i, "range-incl", ln, code[:m.start()] + "..=" + code[m.end():] + ln[len(code):]))
+            for m in re.finditer(r"\.(0|1)\b(?!\.\d)", code):
+                if code[:m.start()].count('"') % 2 == 0 and re.search(r"[a-z_)\]]$", code[:m.start()]):
+                    res.append((rel, i, "tuple-idx", ln, code[:m.start()] + "." + ("1" if m.group(1) == "0" else "0") + code[m.end():] + ln[len(code):]))
+            m = re.search(r"^(\s*(?:if|while|return)?.*?)([a-z_.()!]+) (&&|\|\|) ([a-z_.()!]+)(.*)$", code)
+            if m and code.count('"') == 0:
+                res.append((rel, i, "drop-conjunct", ln, m.group(1) + m.group(2) + m.group(5) + ln[len(code):]))
+                res.append((rel, i, "drop-conjunct", ln, m.group(1) + m.group(4) + m.group(5) + ln[len(code):]))
+            m = re.search(r"\b([a-z_]+(?:::[a-z_]+)*)\(([a-z_][a-z_0-9.]*), ([a-z_][a-z_0-9.]*)\)", code)
+            if m and code.count('"') == 0 and m.group(2) != m.group(3):
+                res.append((rel, i, "swap-args", ln, code[:m.start(2)] + m.group(3) + ", " + m.group(2) + code[m.end(3):] + ln[len(code):]))
+            # adjacent single-line match arms: swap the right-hand sides
+            if i + 1 < len(lines):
+                a1 = re.match(r"^(\s*)(\S.*?) => (.+),\s*$", ln)
+                a2 = re.match(r"^(\s*)(\S.*?) => (.+),\s*$", lines[i + 1])
+                if a1 and a2 and a1.group(1) == a2.group(1) and a1.group(3) != a2.group(3) and "{" not in a1.group(3) + a2.group(3):
+                    res.append((rel, i, "swap-arms", ln + "\n" + lines[i + 1],
+                                "%s%s => %s,\n%s%s => %s," % (a1.group(1), a1.group(2), a2.group(3), a2.group(1), a2.group(2), a1.group(3))))
+                # adjacent simple statements: swap their order
+                s1, s2 = ln, lines[i + 1]
+                if DELETABLE.match(s1.split("//")[0]) and DELETABLE.match(s2.split("//")[0]) and s1.strip() != s2.strip():
+                    res.append((rel, i, "swap-stmts", s1 + "\n" + s2, s2 + "\n" + s1))
             # literal in a match arm or command constructor: flip the case of its first letter
             m = re.search(r'"([A-Za-z][A-Za-z_\-]*)"\s*(=>|\))', code)
             if m:
@@ -136,9 +165,10 @@ def worker(k, queue, results):
             sh("git checkout -- . && git clean -fdq", wt)
             p = os.path.join(wt, m["file"])
             lines = open(p).read().split("\n")
-            if lines[m["line"] - 1] != m["old"]:
+            span = m["old"].count("\n") + 1
+            if "\n".join(lines[m["line"] - 1:m["line"] - 1 + span]) != m["old"]:
                 continue
-            lines[m["line"] - 1] = m["new"]
+            lines[m["line"] - 1:m["line"] - 1 + span] = m["new"].split("\n")
             open(p, "w").write("\n".join(lines))
             rec = dict(m)
             rc, out = sh("cargo check --workspace --offline 2>&1", wt, env)
